@@ -37,6 +37,70 @@ COUNTERS = [
 ]
 
 
+def stride_field_mapping(ctx, rid):
+    """StrideConverter: the two loops that lay the user's payload fields into / out of the raw word of the width converter, interpreted
+    (lxs/pyconst.py) on model layouts of 2 and 3 fields x ratio 2 and 3 with every bit tagged: chunk i of field f occupies raw bits
+    [i * nbits + offset(f) : + width(f)] on both sides -- every field at its own offset, no bit lost or doubled."""
+    from .. import pyconst
+    from ..pyconst import NS
+    m = ctx.mod(STREAM)
+    init = m.method("StrideConverter", "__init__")
+    ctx.analysed["functions"].add(f"{STREAM}::StrideConverter.__init__")
+
+    class EqToTuple(ast.NodeTransformer):
+        def visit_Call(self, node):
+            self.generic_visit(node)
+            if isinstance(node.func, ast.Attribute) and node.func.attr == "eq" and len(node.args) == 1:
+                return ast.copy_location(ast.List(elts=[ast.Tuple(elts=[ast.Constant(value="eq"), node.func.value, node.args[0]], ctx=ast.Load())],
+                                                  ctx=ast.Load()), node)
+            return node
+    blocks = {}
+    for n in ast.walk(init):
+        if isinstance(n, ast.If) and norm(n.test) in ("converter.cls == _DownConverter", "converter.cls == _UpConverter"):
+            blocks[norm(n.test).split("== ")[1]] = n
+    ctx.ob(rid, STREAM, "StrideConverter", "field mapping blocks:present", set(blocks) == {"_DownConverter", "_UpConverter"}, f"{sorted(blocks)}", init)
+    for kind, blk in sorted(blocks.items()):
+        bad = None
+        n_cfg = 0
+        for layout in ([("data", 8), ("strb", 2)], [("a", 3), ("b", 5), ("c", 1)]):
+            for ratio in (2, 3):
+                nb = sum(w for _, w in layout)
+                raw = [("raw", k) for k in range(nb * ratio)]
+                wide = NS(description=NS(payload_layout=list(layout)), **{f: [(f, k) for k in range(w * ratio)] for f, w in layout})
+                me = NS(comb=[])
+                conv = NS(ratio=ratio, sink=NS(data=raw), source=NS(data=raw))
+                env = {"self": me, "converter": conv, "sink": wide, "source": wide, "nbits_from": nb, "nbits_to": nb}
+                body = [EqToTuple().visit(ast.parse(ast.unparse(st)).body[0]) for st in blk.body]
+                for st in body:
+                    ast.fix_missing_locations(st)
+                try:
+                    pyconst.Interp(env, exact=True).run(body)
+                except Exception as ex:     # noqa
+                    ctx.need(False, f"StrideConverter field mapping ({kind}) cannot be interpreted: {type(ex).__name__}: {ex}")
+                n_cfg += 1
+                got = {}
+                for rec in me["comb"]:
+                    if not (isinstance(rec, tuple) and len(rec) == 3 and rec[0] == "eq" and isinstance(rec[1], list) and isinstance(rec[2], list) and len(rec[1]) == len(rec[2])):
+                        bad = bad or f"layout {layout}, ratio {ratio}: a mapping statement the interpreter cannot read ({str(rec)[:60]})"
+                        continue
+                    for d, s_ in zip(rec[1], rec[2]):
+                        fld, rw = (d, s_) if s_[0] == "raw" else (s_, d)       # user field bit <-> raw bit, whichever the direction
+                        got.setdefault(fld, []).append(rw)
+                want, off = {}, 0
+                for f, w in layout:
+                    for i in range(ratio):
+                        for b in range(w):
+                            want[(f, i * w + b)] = [("raw", i * nb + off + b)]
+                    off += w
+                if got != want and bad is None:
+                    diff = sorted(k for k in want if got.get(k) != want[k])
+                    k0 = diff[0] if diff else sorted(set(got) - set(want))[0]
+                    bad = f"layout {layout}, ratio {ratio}: bit {k0[1]} of field `{k0[0]}` is connected to raw bit(s) {[x[1] for x in got.get(k0, [])]}, its place is raw bit " \
+                          f"{want.get(k0, [('raw', None)])[0][1]} (chunk * {nb} + field offset): fields overlap in the raw word"
+        ctx.ob(rid, STREAM, "StrideConverter", f"{kind} side: every field bit at chunk * nbits + its own field offset (4 layouts x ratios)", bad is None and n_cfg == 4,
+               bad or "", blk)
+
+
 def packer_loads(ctx, rid, cls):
     """stream._UpConverter / Pack: the lane registers of the wide word load only with the sink handshake (shared with C10: a lane
     loaded on sink.valid alone overwrites lane 0 of a wide beat that is still waiting for WREADY / RREADY)."""
@@ -202,6 +266,10 @@ def run(ctx):
                     "accepted tokens", min_sites=3)
     from .c05 import crossing_stage_domains
     crossing_stage_domains(ctx, "S16")
+
+    ctx.rule("S17", "StrideConverter: user fields <-> raw word mapping by value (both directions): each field at its own offset of every "
+                    "chunk, nothing lost or doubled", min_sites=3)
+    stride_field_mapping(ctx, "S17")
 
     # ---- S5 wiring
     for cls in ("PipeReady", "Converter", "ClockDomainCrossing", "Gate", "Multiplexer", "Demultiplexer", "_IdentityConverter"):
